@@ -282,6 +282,17 @@ func GenFailWin(t *testing.T, e *Env) (FOut, []GetSpec, bool) {
 			g.Skip = true
 		}
 
+		if j == failAt {
+			// the caller of the failing build has gone away (before the call / in the middle of the build): the failure is
+			// cached all the same
+			switch e.Rng.Intn(4) {
+			case 0:
+				g.CancelBefore = true
+			case 1:
+				g.Plan.CancelMid = true
+			}
+		}
+
 		gets = append(gets, g)
 	}
 
